@@ -247,11 +247,25 @@ def run(ctx):
                     if pol != 'PFill':
                         calls.append(('extract_points[dask]', lambda: point_extraction.extract_points(dsc, points, missing_points=mp2)))
                     ctx.count('op:extract_on_dask_arrays')
+            df.index.name = 'visit'             # the caller's own name for the rows of his table
+            df_before = df.copy(deep=True)
+            pts_before = [(q.x, q.y) for q in points]
             for cname, fn in calls:
                 bad = None
                 impl = None
                 try:
                     out = fn()
+                    # the caller's own objects are left as they were: the table (values, column order, index and its name) and
+                    # the list of points
+                    if not df.equals(df_before) or list(df.columns) != list(df_before.columns) or df.index.name != df_before.index.name \
+                            or list(df.index) != list(df_before.index):
+                        ctx.report('property', f'{cname}: the caller\'s table was modified (index name {df_before.index.name!r} -> {df.index.name!r}, '
+                                   f'columns {list(df_before.columns)} -> {list(df.columns)})', dict(case, call=cname))
+                        df = df_before.copy(deep=True)
+                        continue
+                    if [(q.x, q.y) for q in points] != pts_before:
+                        ctx.report('property', f'{cname}: the caller\'s list of points was modified', dict(case, call=cname))
+                        continue
                     labels = [int(x) for x in out['point'].values]
                     impl = (0, labels)
                     # which rows, which labels
